@@ -958,4 +958,279 @@ def standin_chained_lets(tier, seed):
                  % (len(CHAIN_FIRST), sum(len(v) for _, v in CHAIN_FIRST), 'all' if thorough else '5 seeded', 'up to 10 seeded' if thorough else '7 seeded'))
 
 
-STANDINS = [standin_exemplar_shapes, standin_range_bounds, standin_alternations, standin_recursive_documented, standin_named_reach, standin_chained_lets]
+# ------------------------------------------------------------------ family 7: several values of a recursive named constraint inside ONE let
+# "A named constraint behaves exactly like the same constraint written inline" + "builds iff the bound value conforms": when the value of one
+# constrained let contains SEVERAL sub-values that must conform to the same recursive constraint (siblings in tuple fields, in one list, in
+# nested lists, cousins at depth 1..3), every one of them is checked on its own - the verdict for one node says nothing about a node with
+# other fields or other field types, whatever the order in which they appear.  Oracle = the exemplar rule of the statement applied
+# recursively with the name replaced by its definition (`rec_admits`); shape (exemplar) constraints only, see KNOWN selfref_shape_only.
+REF = ('ref',)
+
+
+def rsrc(e, name):
+    """source of an exemplar that may mention the recursive constraint `name`"""
+    if e == REF:
+        return name
+    if e[0] == 'tuple':
+        return '{' + ', '.join('%s = %s' % (n, rsrc(x, name)) for n, x in e[1]) + '}'
+    if e[0] == 'list':
+        return '[' + ', '.join(rsrc(x, name) for x in e[1]) + ']'
+    return vsrc(e)
+
+
+def rec_admits(e, v, arms, reading='some'):
+    """exemplar e (REF = the named constraint = one of `arms`, as documented: `"" | {...}` is "a string or such a tuple") admits value v.
+    Lists: every element type of one side is admitted by the other side.  For a REF with several arms "the other side admits the element
+    type REF" can be read as 'some' arm is matched by an element or as 'every' arm is; callers keep only cases where both readings agree."""
+    if e == REF:
+        return any(rec_admits(a, v, arms, reading) for a in arms)
+    if e[0] != v[0]:
+        return False
+    if e[0] == 'tuple':
+        fe, fv = dict(e[1]), dict(v[1])
+        if not (set(fe) <= set(fv) or set(fv) <= set(fe)):
+            return False
+        return all(rec_admits(fe[n], fv[n], arms, reading) for n in set(fe) & set(fv))
+    if e[0] == 'list':
+        def side_e(x):
+            if x == REF and reading == 'every':
+                return all(any(rec_admits(a, y, arms, reading) for y in v[1]) for a in arms)
+            return any(rec_admits(x, y, arms, reading) for y in v[1])
+        return all(side_e(x) for x in e[1]) or all(any(rec_admits(x, y, arms, reading) for x in e[1]) for y in v[1])
+    return True
+
+
+class RecSpec:
+    """constraint <name> = <arms joined by |>; the last arm is the tuple {plain fields..., recursive fields...}"""
+    def __init__(self, sid, name, arms):
+        self.id, self.name, self.arms = sid, name, arms
+        body = arms[-1][1]
+        self.plain = [(n, x) for n, x in body if x != REF and x != L(REF)]
+        self.recs = [(n, x) for n, x in body if x == REF or x == L(REF)]
+        self.base = S('end') if len(arms) > 1 else None
+        self.decl = 'constraint %s = %s;' % (name, ' | '.join(rsrc(a, name) for a in arms))
+        self.max_children = len(self.recs) if self.recs[0][1] == REF else 9
+
+    def rec_fields(self, ch):
+        out = []
+        for i, (n, x) in enumerate(self.recs):
+            mine = ch[i::len(self.recs)]
+            out.append((n, L(*mine) if x == L(REF) else (mine[0] if mine else self.base)))
+        return out
+
+    def node(self, variant, ch=()):
+        """a value meant for the constraint: `variant` says which fields it has / which are of a wrong type; ch = its child nodes"""
+        ch = list(ch)
+        plain = [(n, bump(x)) for n, x in self.plain]
+        wrong = lambda k: [(n, OTHER[x[0]]) if j == k % len(plain) else (n, bump(x)) for j, (n, x) in enumerate(self.plain)]
+        rec = self.rec_fields(ch)
+        zz = [('zz', B(True))]
+        table = {
+            'full': lambda: T(*(plain + rec)),
+            'min': lambda: T(*rec),
+            'more': lambda: T(*(plain + rec + zz)),
+            'plain_only': lambda: T(*plain),
+            'empty': lambda: T(),
+            'reordered': lambda: T(*(rec + plain[::-1])),
+            'retype': lambda: T(*(wrong(0) + rec)),
+            'retype_last': lambda: T(*(wrong(-1) + rec)),
+            'min_retype': lambda: T(*(rec + wrong(0)[:1])),
+            'more_retype': lambda: T(*(wrong(0) + rec + zz)),
+            'neither': lambda: T(*(rec + zz)),
+            'rec_not_list': lambda: T(*(plain + [(n, I(1)) for n, _ in self.recs])),
+            'rec_wrong_elem': lambda: T(*(plain + [(n, L(I(1)) if x == L(REF) else B(True)) for n, x in self.recs])),
+            'scalar': lambda: I(42),
+            'a_list': lambda: L(),
+            'text': lambda: S('text'),
+        }
+        return table[variant]()
+
+
+REC_SPECS = [
+    RecSpec('kids', 'node', [T(('name', S('')), ('kids', L(REF)))]),
+    RecSpec('bintree', 'tr', [T(('v', I(0)), ('l', L(REF)), ('r', L(REF)))]),
+    RecSpec('xml', 'xn', [S(''), T(('name', S('')), ('attrs', T()), ('children', L(REF)))]),          # the documented one
+    RecSpec('chain', 'ch', [S(''), T(('val', I(0)), ('next', REF))]),                                 # documented position: one arm of an alternation
+]
+REC_VARIANTS = ['full', 'min', 'more', 'retype', 'min_retype', 'neither', 'text',                        # [:7] = the quick core
+                'plain_only', 'empty', 'reordered', 'retype_last', 'more_retype', 'rec_not_list', 'rec_wrong_elem', 'scalar', 'a_list']
+REC_CORE = 7
+
+
+def rec_structures(sp, A, B_):
+    """where two nodes A, B (functions: children -> value) sit inside the value of ONE let: name -> (constraint exemplar, value)"""
+    W = lambda *ch: sp.node('full', ch)
+    Wm = lambda *ch: sp.node('min', ch)
+    a, b = A(), B_()
+    pair = T(('l', REF), ('r', REF))
+    st = {
+        'fields': (pair, T(('l', a), ('r', b))),
+        'fields_depth1': (pair, T(('l', W(a)), ('r', W(b)))),
+        'fields_depth1_min': (pair, T(('l', Wm(a)), ('r', Wm(b)))),
+        'fields_depth2': (pair, T(('l', W(W(a))), ('r', W(Wm(b))))),
+        'fields_depth1_2': (pair, T(('l', W(a)), ('r', Wm(W(b))))),
+        'fields_depth2_1': (pair, T(('l', Wm(W(a))), ('r', W(b)))),
+        'fields_depth3': (pair, T(('l', W(Wm(W(a)))), ('r', W(W(Wm(b)))))),
+        'fields_with_children': (pair, T(('l', A([sp.node('min')])), ('r', B_([sp.node('full')])))),
+        'three_fields': (T(('l', REF), ('m', REF), ('r', REF)), T(('l', W(a)), ('m', W(b)), ('r', W(a)))),
+        'list_fields': (T(('p', L(REF)), ('q', L(REF))), T(('p', L(a)), ('q', L(b)))),
+        'list_fields_depth1': (T(('p', L(REF)), ('q', L(REF))), T(('q', L(W(b))), ('p', L(Wm(a))))),
+        'one_list': (L(REF), L(a, b)),
+        'one_list_depth1': (L(REF), L(W(a), W(b))),
+        'nested_lists': (L(L(REF)), L(L(a), L(b))),
+        'lists_in_tuple_in_list': (L(T(('g', L(REF)))), L(T(('g', L(a))), T(('g', L(b))))),
+        'root_depth1': (REF, W(a)),
+        'root_depth3': (REF, W(Wm(W(b)))),
+    }
+    if sp.max_children >= 2:
+        st.update({
+            'siblings': (REF, W(a, b)),
+            'siblings_min': (REF, Wm(a, b)),
+            'siblings_depth2': (REF, W(W(a, b))),
+            'cousins': (REF, W(W(a), W(b))),
+            'cousins_depth3': (REF, W(W(W(a)), Wm(Wm(b)))),
+            'fields_of_siblings': (pair, T(('l', W(a, b)), ('r', Wm(b, a)))),
+            'three_siblings': (pair, T(('l', W(a, b, a)), ('r', W(b, b, a)))),
+        })
+    return st
+
+
+REC_DECISIVE = ['fields', 'fields_depth1', 'fields_depth1_2', 'list_fields', 'siblings', 'cousins']
+
+
+def standin_recursive_siblings(tier, seed):
+    rnd = random.Random(seed)
+    thorough = tier == 'thorough'
+    b = Batch()
+    ambiguous = 0
+
+    def one(sp, sname, va, vb):
+        nonlocal ambiguous
+        c, v = rec_structures(sp, lambda ch=(): sp.node(va, ch), lambda ch=(): sp.node(vb, ch))[sname]
+        ok = rec_admits(c, v, sp.arms, 'some')
+        if ok != rec_admits(c, v, sp.arms, 'every'):
+            ambiguous += 1
+            return
+        pre, ctext, vtext = [sp.decl], rsrc(c, sp.name), vsrc(v)
+        spell = rnd.randrange(4)
+        if spell == 1 and c != REF:
+            pre.append('constraint outer = %s;' % ctext)
+            ctext = 'outer'
+        elif spell == 2:
+            pre.append('let vv = %s;' % vtext)
+            vtext = 'vv'
+        b.add_program('\n'.join(pre + ['let x :: %s = %s;' % (ctext, vtext)]), ok, 'recursive `%s`, structure %s, nodes %s then %s' % (sp.id, sname, va, vb))
+
+    names = sorted(rec_structures(REC_SPECS[0], lambda ch=(): I(1), lambda ch=(): I(1)))
+    if thorough:
+        for sp in REC_SPECS:
+            for sname in names:
+                for va in REC_VARIANTS:
+                    for vb in REC_VARIANTS:
+                        if sname in rec_structures(sp, lambda ch=(): I(1), lambda ch=(): I(1)):
+                            one(sp, sname, va, vb)
+    else:
+        core = REC_VARIANTS[:REC_CORE]
+        for sp in REC_SPECS[:1]:
+            for sname in REC_DECISIVE:
+                for va in core:
+                    for vb in core:
+                        one(sp, sname, va, vb)
+        for _ in range(330):
+            sp = rnd.choice(REC_SPECS)
+            sname = rnd.choice(sorted(rec_structures(sp, lambda ch=(): I(1), lambda ch=(): I(1))))
+            va, vb = (rnd.choice(core), rnd.choice(core)) if rnd.random() < 0.5 else (rnd.choice(REC_VARIANTS), rnd.choice(REC_VARIANTS))
+            one(sp, sname, va, vb)
+    r = b.run('recursive_siblings',
+              '%d recursive named exemplar constraints (`{name, kids = [node]}`, a binary tree with two recursive list fields, the documented `"" | {name, attrs, children = [xn]}`, a linked '
+              'list `"" | {val, next = ch}`) x %d placements of TWO nodes inside the value of one constrained let (two / three tuple fields of an outer exemplar, at depth 0..3 under '
+              'conforming parents with all / few fields, list fields, one list, nested lists, siblings and cousins under one root, with children of their own) x %s ordered pairs of %d node '
+              'variants (all fields, only the recursive fields, an extra field, reordered, only plain fields, empty; a plain field of a wrong type with all / few / extra fields, neither '
+              'field set contained, the recursive field not a list / with a wrong element, a scalar, a list, a string); constraint inline or behind a second name, value literal or let-bound; '
+              'expected: the statement\'s exemplar rule applied recursively with the name replaced by its definition [%d placements left out: the list rule is ambiguous for an alternation]'
+              % (len(REC_SPECS), len(names), 'all' if thorough else 'all of the first 7 variants for `kids` in 6 placements + 330 seeded', len(REC_VARIANTS), ambiguous))
+    return r
+
+
+# ------------------------------------------------------------------ family 8: nested tuple exemplars, field sets varied independently at every level
+# "tuples agreeing on the types of the fields they share with one field set contained in the other" holds per tuple: at every nesting
+# level on its own the value may have fewer, the same or more fields than the exemplar (so containment may go in opposite directions on
+# different levels), and a shared field of another type or two incomparable field sets at ANY level refuse the value.  Oracle: `compat`.
+LEVEL_E = [(), ('p',), ('q',), ('p', 'q')]
+LEVEL_V = [(p, q, z) for p in (None, 'ok', 'bad') for q in (None, 'ok', 'bad') for z in (False, True)]
+QUICK_E = [(), ('p', 'q')]
+QUICK_V = [(None, None, False), ('ok', None, False), ('ok', 'ok', False), ('ok', 'ok', True), ('ok', None, True), ('bad', None, False), ('bad', 'ok', True)]
+LINKS = ['tuple', 'list', 'list_good_sibling', 'list_bad_sibling', 'list_of_lists', 'value_drops', 'exemplar_lacks']
+
+
+def nest_levels(levels, links, t_first):
+    """levels: [(E fields, (p, q, z) of the value)] outermost first; links[i] joins level i and i + 1 -> (exemplar, value)"""
+    (ef, (vp, vq, vz)), rest = levels[0], levels[1:]
+    e = [(n, {'p': I(1), 'q': S('s')}[n]) for n in ef]
+    v = ([('p', I(7) if vp == 'ok' else S('w'))] if vp else []) + ([('q', S('t') if vq == 'ok' else I(3))] if vq else []) + ([('z', B(True))] if vz else [])
+    if rest:
+        ne, nv = nest_levels(rest, links[1:], t_first)
+        ln = links[0]
+        if ln == 'tuple':
+            te, tv = ne, nv
+        elif ln == 'list':
+            te, tv = L(ne), L(nv)
+        elif ln == 'list_good_sibling':
+            te, tv = L(ne), L(nv, bump(ne))
+        elif ln == 'list_bad_sibling':
+            te, tv = L(ne), L(T(('p', B(True)), ('q', B(True)), ('z', I(1)), ('t', I(1))), nv)
+        elif ln == 'list_of_lists':
+            te, tv = L(L(ne)), L(L(nv), L())
+        else:
+            te, tv = ne, nv
+        if ln != 'exemplar_lacks':
+            e = [('t', te)] + e if t_first else e + [('t', te)]
+        if ln != 'value_drops':
+            v = [('t', tv)] + v if t_first else v + [('t', tv)]
+    return T(*e), T(*v)
+
+
+def standin_nested_tuple_levels(tier, seed):
+    rnd = random.Random(seed)
+    thorough = tier == 'thorough'
+    b = Batch()
+    wrappers = lambda e: [('ex', e), ('named', ('ex', e)), ('letex', e)]
+
+    def one(levels, links):
+        e, v = nest_levels(levels, links, rnd.random() < 0.5)
+        b.add(rnd.choice(wrappers(e)) if rnd.random() < 0.4 else ('ex', e), v, 'literal' if rnd.random() < 0.8 else rnd.choice(['let', 'field', 'paren', 'constfunc', 'copy']))
+
+    lv_q = [(e, v) for e in QUICK_E for v in QUICK_V]
+    lv_all = [(e, v) for e in LEVEL_E for v in LEVEL_V]
+    if thorough:
+        for l0 in lv_all:
+            for l1 in lv_all:
+                one([l0, l1], ['tuple'])
+        for l0 in lv_q:
+            for l1 in lv_q:
+                for ln in LINKS[1:]:
+                    one([l0, l1], [ln])
+                for l2 in lv_q:
+                    one([l0, l1, l2], ['tuple', 'tuple'])
+        nrand = 3000
+    else:
+        for l0 in lv_q:
+            for l1 in lv_q:
+                one([l0, l1], ['tuple'])
+                one([l0, l1], ['list'])
+        nrand = 350
+    for _ in range(nrand):
+        d = rnd.choice([2, 3, 3])
+        pool = lv_q if rnd.random() < 0.5 else lv_all
+        one([rnd.choice(pool) for _ in range(d)], [rnd.choice(LINKS[:2] if rnd.random() < 0.5 else LINKS) for _ in range(d - 1)])
+    return b.run('nested_tuple_levels',
+                 'tuple exemplars nested 2..3 deep whose levels are varied INDEPENDENTLY: per level the exemplar has the fields {} / {p} / {q} / {p, q} (+ the nested field t) and the value has '
+                 'each of p, q absent / of the same type / of another type and an extra field z or not (18 x 4 per level; empty tuples included), the levels joined by a tuple field, a list, a '
+                 'list with a conforming / a non-conforming sibling, a list of lists, or t missing on one side: %s; exemplar inline / named / let-bound, value literal or computed'
+                 % ('all 72 x 72 two-level pairs joined by a tuple, all 14 x 14 pairs of a reduced alphabet for the 6 other joins, all 14^3 three-level chains of it, 3000 seeded chains of depth 2..3'
+                    if thorough else 'all 14 x 14 two-level pairs of a reduced alphabet (exemplar {} / {p, q}; value {}, {p}, {p, q}, {p, q, z}, {p, z}, {p wrong}, {p wrong, q, z}) joined by a tuple '
+                    'and by a list, 350 seeded chains of depth 2..3 over the full alphabet and all joins'))
+
+
+STANDINS = [standin_exemplar_shapes, standin_range_bounds, standin_alternations, standin_recursive_documented, standin_named_reach, standin_chained_lets,
+            standin_recursive_siblings, standin_nested_tuple_levels]
